@@ -18,20 +18,59 @@ RULE = ("seeded raw MIDI files written with mido: ticks_per_beat in {24,48,96,10
         "velocity 0, channels 0-15, time/key signatures on arbitrary tracks (distinct output ticks), x groupings (singletons, "
         "merged groups, omitted tracks, meta-only tracks, every meta target index). Stratum A: every note at least one output "
         "tick long with gaps that survive rounding (must be entirely clean); stratum B: notes that collapse under rescaling "
-        "(known finding). Checked: every note/signature event within half a tick of its exact rational position (no drift), "
+        "(known finding); stratum U: resolution 24, the tracks of a group share channel and pitches and carry unmatched note events. Checked: every note/signature event within half a tick of its exact rational position (no drift), "
         "group sounding = union of its tracks, signatures of considered tracks on the meta sequence only, no notes from "
         "ungrouped tracks. Non-trivial: resolution != 24 and >= 2 tracks.")
 PLAN = {"quick": {"cases": 1200, "jobs": 4, "timeout": 600},
         "thorough": {"cases": 500000, "jobs": 16, "timeout": 3000, "budget_s": 360}}
 FLOORS = {"quick": {"c13.notes_position_checked": 3000, "c13.signature_position_checked": 500, "c13.long_track": 50,
-                    "c13.omitted_track": 150, "c13.merged_group": 200, "c13.non_dyadic_resolution": 300},
+                    "c13.omitted_track": 150, "c13.merged_group": 200, "c13.non_dyadic_resolution": 250, "c13.union_groups_checked": 150},
           "thorough": {"c13.notes_position_checked": 150000}}
 TPB = [24, 48, 96, 100, 120, 192, 384, 480, 960, 7, 32767]
 KEYS_MIDO = ["C", "G", "D", "A", "E", "B", "F#", "C#", "F", "Bb", "Eb", "Ab", "Db", "Gb", "Cb", "Am", "Em", "Dm", "F#m", "Ebm"]
 MINOR = {"Am": "C", "Em": "G", "Dm": "F", "F#m": "A", "Ebm": "Gb"}
 
 
+def make_union_case(rng, i):
+    """stratum U: resolution 24 (no rounding), the tracks of a group share channel and pitches, and some tracks carry
+    unmatched note events (legal MIDI: an excerpt starting mid-note, a note never released); the group must sound like the
+    union of what each track sounds like on its own"""
+    nt = rng.randint(2, 4)
+    pitches = [60, 62]
+    tracks = []
+    for t in range(nt):
+        evs = []
+        busy = {}
+        for _ in range(rng.randint(0, 5)):
+            p = rng.choice(pitches)
+            on = rng.randrange(0, 160)
+            ln = rng.randint(2, 40)
+            iv = busy.setdefault(p, [])
+            if any(not (on + ln < a or on > b) for a, b in iv):
+                continue
+            iv.append((on, on + ln))
+            evs.append([on, "on", 0, p, rng.randint(1, 127)])
+            evs.append([on + ln, "off", 0, p, rng.random() < 0.5])
+        r = rng.random()
+        if r < 0.35:
+            evs.append([rng.randrange(0, 200), "off", 0, rng.choice(pitches), False])        # stray note-off
+        elif r < 0.6:
+            evs.append([rng.randrange(100, 220), "on", 0, rng.choice(pitches), 90])          # never released
+        order = {"off": 0, "on": 2}
+        evs.sort(key=lambda e: (e[0], order[e[1]]))
+        tracks.append(evs)
+    idx = list(range(nt))
+    rng.shuffle(idx)
+    ngroups = rng.randint(1, max(1, nt - 1))
+    groups = [[] for _ in range(ngroups)]
+    for j, k in enumerate(idx):
+        groups[j % ngroups].append(k)
+    return {"tpb": 24, "tracks": tracks, "groups": groups, "meta": [0], "target": 0, "stratum": "U", "default_call": False, "long": False}
+
+
 def make_case(rng, i, tier):
+    if i % 6 == 5:
+        return make_union_case(rng, i)
     tpb = rng.choice(TPB)
     stratum = "B" if i % 4 == 3 else "A"
     nt = rng.randint(1, 5)
@@ -187,6 +226,17 @@ def run(case, ctx):
 
     def near(T):
         return orc.nearest_ticks(Fraction(T * 24, tpb))
+    if case["stratum"] == "U":
+        for gi, (g, o) in enumerate(zip(groups, out)):
+            exp = orc.union_intervals([orc.sounding([(e[0], _Ev(e)) for e in case["tracks"][k]])[0] for k in g])
+            got = obs(o)["snd"]
+            LOG.n("c13.union_groups_checked")
+            if got != exp:
+                ks = sorted(set(exp) | set(got))
+                fails.append(fail("group_union_of_track_soundings", None, w={"group": gi, "tracks": g,
+                                  "expected": {str(k): exp.get(k) for k in ks}, "loaded": {str(k): got.get(k) for k in ks}}))
+        return {"nontrivial": len(case["tracks"]) >= 2, "fails": fails, "shape": ("U", len(case["tracks"]), len(groups)),
+                "observed": {"groups": groups}}
     for gi, (g, o) in enumerate(zip(groups, out)):
         oo = obs(o)
         got = {}
@@ -244,3 +294,15 @@ def run(case, ctx):
     return {"nontrivial": tpb != 24 and nt >= 2, "fails": fails,
             "shape": (tpb, nt, len(groups), case["stratum"], case["long"], case["default_call"]),
             "observed": {"tpb": tpb, "groups": groups, "meta": meta, "target": target, "notes": [len(obs(o)["notes"]) for o in out]}}
+
+
+class _Ev:
+    """minimal message-like view of a generated file event for the sounding observer"""
+    class _T:
+        def __init__(self, v):
+            self.value = v
+
+    def __init__(self, e):
+        self.message_type = _Ev._T("note_on" if e[1] == "on" else "note_off")
+        self.channel, self.note = e[2], e[3]
+        self.velocity = e[4] if e[1] == "on" else 0
